@@ -3520,6 +3520,11 @@ class NetCDFWrite(IOWrite):
                             if axis_size0 != axis_size1:
                                 continue
 
+                            if ncdim1 in g["axis_to_ncdim"].values():
+                                # This netCDF dimension is already in
+                                # use by another axis of this field
+                                continue
+
                             constructs1 = constructs1.copy()
 
                             matched_construct = False
